@@ -293,4 +293,226 @@ theorem scanFrom_slots (F : Flow S) (ρ : Rank F.n) (hT : Topo F ρ) (hS : SelfF
         · exact ⟨fun h => absurd h hnf, fun _ => ihA k (by omega)⟩
         · exact ihB q (by omega) hq
 
+/-! ## one cycle: slot views and the cached next time -/
+
+/-- only the dues of real nodes matter -/
+theorem denSeq_congr_due (F : Flow S) (ρ : Rank F.n) (t : Time) (due due' : Nat → Bool) (h : ∀ i, i < F.n → due i = due' i)
+    (fuel k : Nat) (σ : Nat → S) (w ev : List Nat) (hfk : k + fuel = F.n) :
+    denSeq F ρ t due fuel k σ w ev = denSeq F ρ t due' fuel k σ w ev := by
+  induction fuel generalizing k σ w ev with
+  | zero => rfl
+  | succ fuel ih =>
+    have hk : k < F.n := by omega
+    rw [denSeq, denSeq]
+    simp only [h _ (ρ.left k hk).2]
+    split
+    · exact ih _ _ _ _ (by omega)
+    · exact ih _ _ _ _ (by omega)
+
+theorem fires_congr_due (F : Flow S) (due due' : Nat → Bool) (w : List Nat) (i : Nat) (h : due i = due' i) :
+    fires F due w i ↔ fires F due' w i := by unfold fires; rw [h]
+
+/-- the nodes due at `t`, by node id, read off the slot views (`false` outside the graph) -/
+def dueN (F : Flow S) (ρ : Rank F.n) (g : G) (t : Time) : Nat → Bool :=
+  fun i => decide (i < F.n) && decide (slotOf g (ρ.posOf i) = t)
+
+/-- the slot every node is left with after a fresh cycle, in terms of the slot-free reading -/
+theorem cycle_slots (F : Flow S) (ρ : Rank F.n) (hT : Topo F ρ) (hS : SelfFuture F) (fx : Bool) (t : Time) (g : G)
+    (σ0 : Nat → S) (hlen : g.slots.length = F.n) (hc : g.cursor = 0) (i : Nat) (hi : i < F.n) :
+    (fires F (dueN F ρ g t) (denSeq F ρ t (dueN F ρ g t) F.n 0 σ0 [] []).2.1 i →
+      slotOf (cycle fx (beh F ρ) F.n t g σ0).g (ρ.posOf i) =
+        selfSlot t (F.selfReq i ((denSeq F ρ t (dueN F ρ g t) F.n 0 σ0 [] []).1 i) t)) ∧
+    (¬ fires F (dueN F ρ g t) (denSeq F ρ t (dueN F ρ g t) F.n 0 σ0 [] []).2.1 i →
+      slotOf (cycle fx (beh F ρ) F.n t g σ0).g (ρ.posOf i) = slotOf g (ρ.posOf i)) := by
+  have hfresh : cycle fx (beh F ρ) F.n t g σ0 =
+      scanFrom (beh F ρ) t F.n 0 { g with now := t, failed := false, next := none, cursor := 0 } σ0 [] := by
+    cases fx <;> simp [cycle, resuming, hc]
+  rw [hfresh]
+  have hq := ρ.right i hi
+  have := (scanFrom_slots F ρ hT hS t (dueN F ρ g t) F.n 0
+    { g with now := t, failed := false, next := none, cursor := 0 } σ0 [] [] (by omega) hlen rfl (by
+      intro q _ hq'
+      show slotOf g q = t ↔ _
+      unfold dueN
+      rw [(ρ.left q hq').1]
+      simp [(ρ.left q hq').2])).2 (ρ.posOf i) (Nat.zero_le _) hq.2
+  rw [hq.1] at this
+  exact this
+
+/-- the state after a fresh cycle is the slot-free reading with the dues restricted to real nodes -/
+theorem cycle_st (F : Flow S) (ρ : Rank F.n) (hT : Topo F ρ) (hS : SelfFuture F) (fx : Bool) (t : Time) (g : G)
+    (σ0 : Nat → S) (hlen : g.slots.length = F.n) (hc : g.cursor = 0) :
+    (cycle fx (beh F ρ) F.n t g σ0).st = (denSeq F ρ t (dueN F ρ g t) F.n 0 σ0 [] []).1 := by
+  rw [(cycle_eq_denSeq F ρ hT hS fx t g σ0 hlen hc).1]
+  rw [denSeq_congr_due F ρ t (dueOf ρ g t) (dueN F ρ g t) (by intro i hi; unfold dueN dueOf; simp [hi]) F.n 0 σ0 [] [] (by omega)]
+
+/-- two graphs (one per rank) that show every node the same slot -/
+def SameView (F : Flow S) (ρ₁ ρ₂ : Rank F.n) (g₁ g₂ : G) : Prop :=
+  ∀ i, i < F.n → slotOf g₁ (ρ₁.posOf i) = slotOf g₂ (ρ₂.posOf i)
+
+theorem dueN_eq (F : Flow S) (ρ₁ ρ₂ : Rank F.n) (g₁ g₂ : G) (t : Time) (hV : SameView F ρ₁ ρ₂ g₁ g₂) :
+    dueN F ρ₁ g₁ t = dueN F ρ₂ g₂ t := by
+  funext i
+  unfold dueN
+  by_cases hi : i < F.n
+  · rw [hV i hi]
+  · simp [hi]
+
+/-- **after a cycle every node still sees the same slot under both ranks, and holds the same state** -/
+theorem cycle_view_independent (F : Flow S) (ρ₁ ρ₂ : Rank F.n) (hT₁ : Topo F ρ₁) (hT₂ : Topo F ρ₂) (hS : SelfFuture F)
+    (hF : Frame F) (fx : Bool) (t : Time) (g₁ g₂ : G) (σ0 : Nat → S)
+    (hlen₁ : g₁.slots.length = F.n) (hlen₂ : g₂.slots.length = F.n) (hc₁ : g₁.cursor = 0) (hc₂ : g₂.cursor = 0)
+    (hV : SameView F ρ₁ ρ₂ g₁ g₂) :
+    SameView F ρ₁ ρ₂ (cycle fx (beh F ρ₁) F.n t g₁ σ0).g (cycle fx (beh F ρ₂) F.n t g₂ σ0).g ∧
+    (cycle fx (beh F ρ₁) F.n t g₁ σ0).st = (cycle fx (beh F ρ₂) F.n t g₂ σ0).st := by
+  have hdue := dueN_eq F ρ₁ ρ₂ g₁ g₂ t hV
+  have s1 := denSeq_sol F ρ₁ hT₁ hF t σ0 (dueN F ρ₁ g₁ t)
+  have s2 := denSeq_sol F ρ₂ hT₂ hF t σ0 (dueN F ρ₂ g₂ t)
+  rw [← hdue] at s2
+  have hu := sol_unique F ρ₁ hT₁ hF t σ0 (dueN F ρ₁ g₁ t) _ _ _ _ s1 s2
+  have hfires : ∀ i, i < F.n →
+      (fires F (dueN F ρ₁ g₁ t) (denSeq F ρ₁ t (dueN F ρ₁ g₁ t) F.n 0 σ0 [] []).2.1 i ↔
+       fires F (dueN F ρ₁ g₁ t) (denSeq F ρ₂ t (dueN F ρ₁ g₁ t) F.n 0 σ0 [] []).2.1 i) :=
+    fired_rank_independent F ρ₁ ρ₂ hT₁ hT₂ hF t (dueN F ρ₁ g₁ t) σ0
+  refine ⟨?_, ?_⟩
+  · intro i hi
+    obtain ⟨a1, b1⟩ := cycle_slots F ρ₁ hT₁ hS fx t g₁ σ0 hlen₁ hc₁ i hi
+    obtain ⟨a2, b2⟩ := cycle_slots F ρ₂ hT₂ hS fx t g₂ σ0 hlen₂ hc₂ i hi
+    rw [← hdue] at a2 b2
+    by_cases hf : fires F (dueN F ρ₁ g₁ t) (denSeq F ρ₁ t (dueN F ρ₁ g₁ t) F.n 0 σ0 [] []).2.1 i
+    · rw [a1 hf, a2 ((hfires i hi).mp hf), (hu i hi).1]
+    · rw [b1 hf, b2 (fun h => hf ((hfires i hi).mpr h))]; exact hV i hi
+  · rw [cycle_st F ρ₁ hT₁ hS fx t g₁ σ0 hlen₁ hc₁, cycle_st F ρ₂ hT₂ hS fx t g₂ σ0 hlen₂ hc₂, ← hdue]
+    funext i
+    by_cases hi : i < F.n
+    · exact (hu i hi).1
+    · rw [denSeq_outside F ρ₁ t _ F.n 0 σ0 [] [] (by omega) i (by omega),
+        denSeq_outside F ρ₂ t _ F.n 0 σ0 [] [] (by omega) i (by omega)]
+
+/-- the cached next time is determined by the slot views -/
+theorem next_of_views (F : Flow S) (ρ₁ ρ₂ : Rank F.n) (t : Time) (g₁ g₂ : G)
+    (h₁ : CInv t F.n g₁) (h₂ : CInv t F.n g₂) (hV : SameView F ρ₁ ρ₂ g₁ g₂) : g₁.next = g₂.next := by
+  -- a future slot seen under one rank is seen under the other
+  have key : ∀ (ρa ρb : Rank F.n) (ga gb : G), CInv t F.n ga → CInv t F.n gb →
+      (∀ i, i < F.n → slotOf ga (ρa.posOf i) = slotOf gb (ρb.posOf i)) →
+      ∀ a, ga.next = some a → ∃ b, gb.next = some b ∧ b ≤ a := by
+    intro ρa ρb ga gb ha hb hv a hna
+    obtain ⟨hta, j, hj, hsj⟩ := ha.isSlot a hna
+    have hnode := ρa.left j hj
+    have hv' := hv (ρa.node j) hnode.2
+    rw [hnode.1, hsj] at hv'
+    obtain ⟨b, hb1, hb2⟩ := hb.lower (ρb.posOf (ρa.node j)) (ρb.right _ hnode.2).2 (by rw [← hv']; exact hta)
+    exact ⟨b, hb1, by rw [← hv'] at hb2; exact hb2⟩
+  cases hn1 : g₁.next with
+  | none =>
+    cases hn2 : g₂.next with
+    | none => rfl
+    | some b =>
+      obtain ⟨a, ha, _⟩ := key ρ₂ ρ₁ g₂ g₁ h₂ h₁ (fun i hi => (hV i hi).symm) b hn2
+      rw [hn1] at ha; cases ha
+  | some a =>
+    obtain ⟨b, hb, hba⟩ := key ρ₁ ρ₂ g₁ g₂ h₁ h₂ hV a hn1
+    obtain ⟨a', ha', hab⟩ := key ρ₂ ρ₁ g₂ g₁ h₂ h₁ (fun i hi => (hV i hi).symm) b hb
+    rw [hn1] at ha'; injection ha' with ha'; subst ha'
+    rw [hb]; congr 1; omega
+
+/-- everything the run loop looks at -/
+structure Rel (F : Flow S) (ρ₁ ρ₂ : Rank F.n) (g₁ g₂ : G) : Prop where
+  len₁ : g₁.slots.length = F.n
+  len₂ : g₂.slots.length = F.n
+  cur₁ : g₁.cursor = 0
+  cur₂ : g₂.cursor = 0
+  view : SameView F ρ₁ ρ₂ g₁ g₂
+  next : g₁.next = g₂.next
+
+theorem cycle_ok (F : Flow S) (ρ : Rank F.n) (hT : Topo F ρ) (hS : SelfFuture F) (fx : Bool) (t : Time) (g : G)
+    (σ0 : Nat → S) (hlen : g.slots.length = F.n) (hc : g.cursor = 0) : (cycle fx (beh F ρ) F.n t g σ0).ok = true :=
+  (cycle_eq_denSeq F ρ hT hS fx t g σ0 hlen hc).2.2
+
+/-- one cycle keeps the relation and ends with equal states -/
+theorem cycle_rel (F : Flow S) (ρ₁ ρ₂ : Rank F.n) (hT₁ : Topo F ρ₁) (hT₂ : Topo F ρ₂) (hS : SelfFuture F)
+    (hF : Frame F) (fx : Bool) (t : Time) (g₁ g₂ : G) (σ0 : Nat → S) (hR : Rel F ρ₁ ρ₂ g₁ g₂) :
+    Rel F ρ₁ ρ₂ (cycle fx (beh F ρ₁) F.n t g₁ σ0).g (cycle fx (beh F ρ₂) F.n t g₂ σ0).g ∧
+    (cycle fx (beh F ρ₁) F.n t g₁ σ0).st = (cycle fx (beh F ρ₂) F.n t g₂ σ0).st := by
+  have hok₁ := cycle_ok F ρ₁ hT₁ hS fx t g₁ σ0 hR.len₁ hR.cur₁
+  have hok₂ := cycle_ok F ρ₂ hT₂ hS fx t g₂ σ0 hR.len₂ hR.cur₂
+  obtain ⟨hV, hst⟩ := cycle_view_independent F ρ₁ ρ₂ hT₁ hT₂ hS hF fx t g₁ g₂ σ0 hR.len₁ hR.len₂ hR.cur₁ hR.cur₂ hR.view
+  have hfresh : ∀ (ρ : Rank F.n) (g : G), g.cursor = 0 → cycle fx (beh F ρ) F.n t g σ0 =
+      scanFrom (beh F ρ) t F.n 0 { g with now := t, failed := false, next := none, cursor := 0 } σ0 [] := by
+    intro ρ g hc; cases fx <;> simp [cycle, resuming, hc]
+  have hci₁ : CInv t F.n (cycle fx (beh F ρ₁) F.n t g₁ σ0).g := by
+    rw [hfresh ρ₁ g₁ hR.cur₁]
+    exact cinv_scanFrom_any _ F.n (disc_beh F ρ₁ hT₁ hS) t F.n 0 _ σ0 [] (by omega) (cinv_init t g₁) (by simpa using hR.len₁)
+  have hci₂ : CInv t F.n (cycle fx (beh F ρ₂) F.n t g₂ σ0).g := by
+    rw [hfresh ρ₂ g₂ hR.cur₂]
+    exact cinv_scanFrom_any _ F.n (disc_beh F ρ₂ hT₂ hS) t F.n 0 _ σ0 [] (by omega) (cinv_init t g₂) (by simpa using hR.len₂)
+  refine ⟨⟨?_, ?_, ?_, ?_, hV, next_of_views F ρ₁ ρ₂ t _ _ hci₁ hci₂ hV⟩, hst⟩
+  · rw [hfresh ρ₁ g₁ hR.cur₁] at hok₁ ⊢; exact scanFrom_length _ F.n t F.n 0 _ σ0 [] (by simpa using hR.len₁) hok₁
+  · rw [hfresh ρ₂ g₂ hR.cur₂] at hok₂ ⊢; exact scanFrom_length _ F.n t F.n 0 _ σ0 [] (by simpa using hR.len₂) hok₂
+  · rw [hfresh ρ₁ g₁ hR.cur₁] at hok₁ ⊢; exact scanFrom_cursor_zero _ t F.n 0 _ σ0 [] hok₁
+  · rw [hfresh ρ₂ g₂ hR.cur₂] at hok₂ ⊢; exact scanFrom_cursor_zero _ t F.n 0 _ σ0 [] hok₂
+
+/-! ## whole runs -/
+
+/-- **a simulation run does not depend on the rank**: one dataflow, two topological ranks (two admissible
+    wiring orders), initial schedules that show every node the same slot and the same cached next time.
+    Then the runs have the same cycle times, end with the same state of every node, and both complete.
+    Node functions are arbitrary (they read only their producers and themselves and schedule themselves only in
+    the future). -/
+theorem run_rank_independent (F : Flow S) (ρ₁ ρ₂ : Rank F.n) (hT₁ : Topo F ρ₁) (hT₂ : Topo F ρ₂) (hS : SelfFuture F)
+    (hF : Frame F) (fx : Bool) (endT : Time) (fuel : Nat) (g₁ g₂ : G) (σ0 : Nat → S) (ts : List Time)
+    (hR : Rel F ρ₁ ρ₂ g₁ g₂) :
+    (simLoop fx (beh F ρ₁) F.n endT fuel g₁ σ0 ts).times = (simLoop fx (beh F ρ₂) F.n endT fuel g₂ σ0 ts).times ∧
+    (simLoop fx (beh F ρ₁) F.n endT fuel g₁ σ0 ts).st = (simLoop fx (beh F ρ₂) F.n endT fuel g₂ σ0 ts).st ∧
+    (simLoop fx (beh F ρ₁) F.n endT fuel g₁ σ0 ts).ok = (simLoop fx (beh F ρ₂) F.n endT fuel g₂ σ0 ts).ok := by
+  induction fuel generalizing g₁ g₂ σ0 ts with
+  | zero => exact ⟨rfl, rfl, rfl⟩
+  | succ fuel ih =>
+    have hnc : nextCycle g₁ endT = nextCycle g₂ endT := by unfold nextCycle; rw [hR.next]
+    rw [simLoop, simLoop, hnc]
+    cases hn : nextCycle g₂ endT with
+    | none => exact ⟨rfl, rfl, rfl⟩
+    | some t =>
+      simp only
+      obtain ⟨hR', hst⟩ := cycle_rel F ρ₁ ρ₂ hT₁ hT₂ hS hF fx t g₁ g₂ σ0 hR
+      rw [cycle_ok F ρ₁ hT₁ hS fx t g₁ σ0 hR.len₁ hR.cur₁, cycle_ok F ρ₂ hT₂ hS fx t g₂ σ0 hR.len₂ hR.cur₂]
+      simp only [↓reduceIte]
+      rw [hst]
+      exact ih _ _ _ _ hR'
+
+/-! ## non-vacuity: the diamond `0 → {1, 2} → 3`, node 0 re-arming itself every 2 steps, under the ranks 0,1,2,3 and 0,2,1,3 -/
+
+def exG : Flow Nat :=
+  { n := 4,
+    prods := fun i => if i = 1 ∨ i = 2 then [0] else if i = 3 then [1, 2] else [],
+    f := fun i σ _ => if i = 0 then (σ 0 + 1, true) else if i = 1 ∨ i = 2 then (σ 0 * (i + 1), true)
+                      else if i = 3 then (σ 1 + σ 2, true) else (σ i, false),
+    selfReq := fun i _ t => if i = 0 then [t + 2] else [] }
+
+example : Topo exG exR1 := by unfold Topo; decide
+example : Topo exG exR2 := by unfold Topo; decide
+example : SelfFuture exG := by
+  intro i s t T h
+  simp only [exG] at h
+  split at h <;> simp at h
+  omega
+example : Frame exG := by
+  intro i σ σ' t h
+  simp only [exG] at h ⊢
+  by_cases h0 : i = 0
+  · subst h0; simp [h 0 (Or.inl rfl)]
+  · by_cases h12 : i = 1 ∨ i = 2
+    · have := h 0 (Or.inr (by simp [h12]))
+      simp [h0, h12, this]
+    · by_cases h3 : i = 3
+      · subst h3
+        have a := h 1 (Or.inr (by simp)); have b := h 2 (Or.inr (by simp))
+        simp [a, b]
+      · simp [h0, h12, h3, h i (Or.inl rfl)]
+example : Rel exG exR1 exR2 { slots := [5, 0, 0, 0], next := some 5 } { slots := [5, 0, 0, 0], next := some 5 } :=
+  ⟨rfl, rfl, rfl, rfl, by unfold SameView; decide, rfl⟩
+example : (simLoop true (beh exG exR1) 4 12 10 { slots := [5, 0, 0, 0], next := some 5 } (fun _ => 1) []).times = [5, 7, 9, 11] ∧
+    (simLoop true (beh exG exR2) 4 12 10 { slots := [5, 0, 0, 0], next := some 5 } (fun _ => 1) []).times = [5, 7, 9, 11] := by
+  decide
+
 end HgVerif.Flow
